@@ -26,6 +26,7 @@ type SpecEnv struct {
 	lets       map[string]ast.Expr
 	st, old    *State
 	loopIdxKey string
+	loopIdxVar types.Object
 	visitedKey string
 	loopVar    types.Object
 	loopEntry  *State // state on entry to the innermost loop under specification (for atLoop)
@@ -380,6 +381,12 @@ func (x *Exec) specIdent(e *ast.Ident, env *SpecEnv) TV {
 	case "nil":
 		return TV{V: ConstV{constant.MakeInt64(0)}, T: types.Typ[types.UntypedNil]}
 	case "loopIdx":
+		if env.loopIdxKey == "" && env.loopIdxVar != nil {
+			// an index loop `for i := 0; i < n; i++` written where the contract expected `for i := range`: the counter is the index
+			if v, ok := env.st.vars[env.loopIdxVar]; ok {
+				return TV{V: v, T: types.Typ[types.Int]}
+			}
+		}
 		if env.loopIdxKey == "" {
 			panic("spec: loopIdx outside an indexed loop")
 		}
